@@ -26,14 +26,20 @@ RULE = ("(a) upstream.VerifMsgTruncated on all 256 values of byte 2 at lengths 3
         "(d) real time, run in the background of the rest: UDP server sending the TC reply after d1 and TCP server answering after d2 "
         "with (d1, d2) = (0, 3.5 s), (2.6 s, 1 s), (1.2 s, 2.5 s), caller deadline 15 s (oracle: the caller got the TCP reply, no "
         "upper time bound); query A whose caller gives up (100-200 ms) during a 400-500 ms TCP retry followed at once by query B "
-        "(5 s) on the same upstream, TCP answers derived from the query (oracle: B gets B's id, question and answer). "
+        "(5 s) on the same upstream, TCP answers derived from the query (oracle: B gets B's id, question and answer); "
+        "(e) k = 1..4 (thorough 1..6) queries at the same time, all TC, held by the TCP server until k connections carry one each, "
+        "so k fallback connections go idle; then one more TC query while the server reads a query on an old connection and "
+        "closes it but answers new connections (oracle: for k <= reuse maxRetry + 1 the caller gets the TCP reply from one new "
+        "connection; the server only ever reads the caller's query). "
         "A case is non-trivial when TC is set or the flag byte is not 0x80/0x81, or it has stray datagrams / a silent UDP "
-        "server / fewer than 4 bytes / DialAddr set / delayed replies / an abandoned retry; distinct = distinct Gallina literal (dial cases contain the ephemeral ports)")
+        "server / fewer than 4 bytes / DialAddr set / delayed replies / an abandoned retry / dead idle connections; distinct = distinct Gallina literal (dial cases contain the ephemeral ports)")
 ASSUMPTIONS = [
     "loopback UDP delivers the datagrams of one sender socket in order, and a bound non-listening TCP socket refuses connections (Linux)",
     "the TCP transport is used for one query at a time (sessions are sequential); concurrent fallbacks are C03/C15 territory",
     "miekg/dns Pack is the reference layout of the header flag bits",
     "timed cases: time.Sleep / time.AfterFunc delay at least the nominal time; a 3.5 s TCP answer stays inside the 6 s reuseConnQueryTimeout",
+    "the retry loop of ReuseConnTransport.ExchangeContext as modelled by coq/Model/Retry.v (loop, reuse_cfg from Gen/RetryFacts.v), "
+    "imported by Model/UdpTc.reuse_stale",
     "url parsing / parseDialAddr as modelled by the C18 model coq/Model/Addr.v (new_upstream), imported by Model/UdpTc.udp_upstream_dials",
 ]
 TRUSTED_BASE = [
@@ -51,7 +57,9 @@ LEVEL_TEXT = ("Theorems in coq/Properties/C17.v: for every header and body msgTr
               "connection without TC and at most one with TC; for every upstream string and DialAddr the TCP retry dials the address the UDP "
               "query went to (c17_retry_same_server, over the C18 address model); with times, only the caller's deadline (and the TCP "
               "connection deadline) bound the retry (c17_late_tcp_reply_is_returned); over all sequences of waiting / abandoned retries and "
-              "late replies no retry receives another query's reply (c17_no_crossed_replies). The model is run inside Coq on every case the Go driver observed on the "
+              "late replies no retry receives another query's reply (c17_no_crossed_replies); with k <= maxRetry + 1 idle connections that die "
+              "mid-exchange the retry loop (Model/Retry.v loop reuse_cfg, shape and constant regenerated from reuse.go) still reaches a fresh "
+              "connection and the caller gets the TCP reply (c17_stale_conns_then_fresh, c17_fallback_over_stale_conns). The model is run inside Coq on every case the Go driver observed on the "
               "real code (Judge.C17.agree) and the property's own reading of the observation is checked (Judge.C17.spec).")
 LEVEL_NOTE = ("Trusted: Coq kernel + vm_compute; hand-written model tied to the code by the differential run and Gen/Constants.v; "
               "loopback ordering; miekg Pack as reference bit layout. Sequential use of one upstream only. No axioms.")
